@@ -411,6 +411,8 @@ fn run_kernels(ctx: &Ctx, level: &'static str, rep: &mut Report) -> u64 {
         let opt = |o: Option<usize>| o.map_or(u64::MAX, |x| x as u64);
         for start in 0..=l + 1 {
             let kcase = |k: &str, extra: Value| json!({"kind":"kernel","kernel":k,"hex":hex(buf),"start":start,"arg":extra});
+            // a kernel that panics on a (buffer, start) its scalar counterpart answers is a disagreement, not a harness crash
+            let body = catch(|| {
             // find_quote_or_escape / find_single_quote: every end in start..=l+1 would be cubic; ends: l, l+5, start+1, start+16, start+17, start+32, start+33
             for end in [l, l + 5, start, start + 1, start + 15, start + 16, start + 17, start + 32, start + 33] {
                 rep.trans(2);
@@ -457,6 +459,14 @@ fn run_kernels(ctx: &Ctx, level: &'static str, rep: &mut Report) -> u64 {
                 // the cross-configuration digest
                 let mut unused = 0u64;
                 check_classify(buf, start, level, rep, &mut unused);
+            }
+            });
+            if let Err(p) = body {
+                let which = ["find_quote_or_escape", "find_single_quote", "count_leading_spaces", "find_newline", "parse_anchor_name", "find_block_scalar_end", "classify"]
+                    .into_iter()
+                    .find(|k| p.contains(k))
+                    .unwrap_or("some-kernel");
+                rep.fail(&format!("kernel:PANIC:{which}:{level}"), l * 100 + start, || kcase("panic", json!(p)));
             }
         }
         rep.distinct(&(buf, acc));
